@@ -417,6 +417,18 @@ LAYOUT_SOURCES = ["alpha", "12345678901234", "'hello world'", "'ab\\ncd'", "alph
                   "[alpha, beta, 123]", "[alpha, [beta, 'x\\ny'], gamma]", "func(alpha, beta, key=value)",
                   "-(alpha and beta or gamma)", "(alpha, beta)", "f(k=(a+b)*c)", "[]", "f()",
                   "[(aa+bb)*cc, 'it\\'s', f(x, y=[1, 2])]", "not (a or 'p\\nq')"]
+# values whose astor rendering (comparison chain, conditional, lambda, comprehension) spans several lines: ONE _output
+# call then carries text with embedded newlines, and a non-last line may need wrapping
+LAYOUT_LONG_SOURCES = [
+    "alpha_alpha_alpha_alpha < beta_beta_beta_beta_beta < gamma_gamma_gamma_gamma_gamma < delta_delta_delta_delta_delta "
+    "< epsilon_epsilon_epsilon",
+    "dict(configuration=value_when_true_is_long_name if some_condition_that_is_long(argument_one, argument_two) "
+    "else value_when_false_is_long_name_too_xx)",
+    "[start, lambda first_argument, second_argument, third_argument: first_argument + second_argument + third_argument "
+    "+ 123456789 + 987654321]",
+    "f(k=[some_function_name(element_value, other_value) for element_value in a_rather_long_iterable_name "
+    "if element_value is not None and other])",
+]
 L_UN = {ast.USub: "-", ast.Not: "not", ast.Invert: "~", ast.UAdd: "+"}
 L_BIN = {ast.Add: "+", ast.Sub: "-", ast.Mult: "*", ast.Pow: "**", ast.FloorDiv: "//", ast.Div: "/", ast.BitOr: "|"}
 L_SYM = {"NL": "\n", "WRAP": chr(8629), "ELL": "...", "sq": "'", "bs": "\\", "nl": "\n"}
@@ -443,7 +455,16 @@ def layout_tree(e: ast.AST) -> Dict[str, Any]:
     if isinstance(e, ast.Call):
         return N("Call", "", [layout_tree(e.func)] + [layout_tree(v) for v in e.args]
                  + [N("Kw", list(k.arg or ""), [layout_tree(k.value)]) for k in e.keywords])
+    if isinstance(e, (ast.Compare, ast.IfExp, ast.Lambda, ast.ListComp, ast.GeneratorExp)):
+        # environment: the text astor gives for the sub-tree, handed to _output in one piece
+        return N("Text", [{"\n": "nl", "'": "sq", "\\": "bs"}.get(c, c) for c in astor_text(e)], [])
     raise MachineryError("layout_tree: form outside ExprLayout.tla: " + ast.dump(e))
+
+
+def _walk(t: Dict[str, Any]):
+    yield t
+    for k in t["kids"]:
+        yield from _walk(k)
 
 
 def gen_layout_source(rng: random.Random, depth: int) -> str:
@@ -462,6 +483,8 @@ def gen_layout_source(rng: random.Random, depth: int) -> str:
         return f"({g()}){rng.choice(['+', '-', '*', '**', '//', '|'])}{name()}"
     if r < 0.33:
         return f"{rng.choice(['-', 'not ', '~'])}({g()})"
+    if r < 0.37:
+        return rng.choice([f"{name()} < {name()} <= 42", f"({name()} if {name()} else {name()})", f"(lambda q: {name()})"])
     if r < 0.43:
         return "(" + rng.choice([" and ", " or "]).join(f"({g()})" for _ in range(rng.choice([2, 3]))) + ")"
     if r < 0.63:
@@ -511,16 +534,76 @@ def marked_py(full: List[str], shown: List[str], complete: bool) -> bool:
     return bool(shown) and shown[-1] == "ELL"
 
 
-def layout_cfg(source: str, maxll: int, maxml: int, fixed_ids: List[str]) -> str:
+def layout_cfg(source: str, maxll: int, maxml: int, fixed_ids: List[str], extra_ll: Tuple[int, ...] = (),
+               segmax: int = 0, colmax: int = 0) -> str:
     return (f'SPECIFICATION Spec\nCONSTANTS Source = "{source}"\n          MaxLineLen = {maxll}\n'
-            f'          MaxMaxLines = {maxml}\n          Fixed = {tla(set(fixed_ids))}\nCONSTRAINT Emit\n'
-            + ("INVARIANT DesignMarked\n" if source == "enum" else ""))
+            f'          MaxMaxLines = {maxml}\n          ExtraLineLen = {tla(set(extra_ll))}\n'
+            f'          SegMax = {segmax}\n          ColMax = {colmax}\n'
+            f'          Fixed = {tla(set(fixed_ids))}\nCONSTRAINT Emit\n'
+            + ("INVARIANT DesignMarked\n" if source == "enum" else "")
+            + ("INVARIANT DesignOrderKept\n" if source == "segs" else ""))
+
+
+def real_output(ll: int, ml: int, col: int, text: str) -> Tuple[str, int, int, str]:
+    """The real PyvalColorizer._output fed with a prefix of `col` characters and then ONE (multi-line) text."""
+    from pydoctor.epydoc.markup import _pyval_repr as P
+    from pydoctor import node2stan
+    c = P.PyvalColorizer(linelen=ll, maxlines=ml, linebreakok=True)
+    st = P._ColorizerState()
+    exc = "none"
+    try:
+        c._output("p" * col, None, st)
+        c._output(text, None, st)
+    except P._Maxlines:
+        exc = "Maxlines"
+    except P._Linebreak:
+        exc = "Linebreak"
+    return "".join(node2stan.gettext(st.result)), st.charpos, st.lineno, exc
+
+
+def run_segments(ctx: Ctx, fixed_ids: List[str], stats: Dict[str, int]) -> None:
+    """ExprLayout.tla, Source = "segs": every (linelen, maxlines, starting column, <= 3 line lengths)."""
+    ll, segmax, colmax = (6, 5, 3) if ctx.quick else (8, 6, 4)
+    r = ctx.tlc("ExprLayout", layout_cfg("segs", ll, 2, fixed_ids, segmax=segmax, colmax=colmax), workers="auto",
+                extra=["-continue"], env={"LAYOUT_FILE": "/nonexistent"}, timeout=900)
+    errs = [e for e in r.errors if "The behavior up to this point is" not in e]
+    if errs or (r.rc != 0 and not r.violated):
+        raise MachineryError(f"TLC failed on ExprLayout(segs): {errs[:3]}\n" + "\n".join(r.out.splitlines()[-25:]))
+    if len(r.printed) != r.distinct:
+        raise MachineryError(f"ExprLayout(segs): {r.distinct} cases but {len(r.printed)} records")
+    ctx.extra["segments_design_level_invariants_violated"] = sorted(set(r.violated))
+    for rec in r.printed:
+        text = "".join(L_SYM.get(x, x) for x in rec["text"])
+        out, cp, ln, exc = real_output(rec["ll"], rec["ml"], rec["col"], text)
+        ctx.traces += 1
+        stats["segments"] += 1
+        model = "".join(L_SYM.get(x, x) for x in rec["out"])
+        if (out, cp, ln, exc) != (model, rec["cp"], rec["ln"], rec["exc"]):
+            stats["drift"] += 1
+            ctx.drift_note({"segs": rec["lens"], "linelen": rec["ll"], "maxlines": rec["ml"], "col": rec["col"],
+                            "model": [model, rec["cp"], rec["ln"], rec["exc"]], "real": [out, cp, ln, exc]})
+        if exc == "none":
+            stats["segments_wrapped"] += chr(8629) in out
+            if out.replace(chr(8629) + "\n", "") != "p" * rec["col"] + text:
+                stats["violations"] += 1
+                ctx.violation({"invariant": "OrderKept", "origin": "segs", "input": text, "linelen": rec["ll"],
+                               "maxlines": rec["ml"], "col": rec["col"], "observed": {"shown": out},
+                               "expected": "reading across the wrap marks gives the text back, every character in place",
+                               "key": f"order:{[min(x, rec['ll'] + 1) for x in rec['lens']]}:{rec['col'] > 0}"})
+        if stats["segments"] % 9000 == 11:
+            ctx.sample({"text": text, "linelen": rec["ll"], "col": rec["col"], "shown": out})
 
 
 def run_layout(ctx: Ctx, rng: random.Random, fixed_ids: List[str], stats: Dict[str, int]) -> None:
     maxll, maxml = (12, 3) if ctx.quick else (24, 4)
-    sources = list(LAYOUT_SOURCES)
-    want = 26 if ctx.quick else 70
+    extra_ll = (40, 80)
+    sources = list(LAYOUT_SOURCES) + list(LAYOUT_LONG_SOURCES)
+    if not all("\n" in astor_text(ast.parse(sx, mode="eval").body.elts[1] if sx.startswith("[start")
+                                  else ast.parse(sx, mode="eval").body) or "dict(" in sx or sx.startswith("f(k=")
+               for sx in LAYOUT_LONG_SOURCES):
+        ctx.notes.append("astor no longer breaks the long layout sources across lines: multi-line _output not exercised "
+                         "through values (still through Source = segs)")
+    want = 30 if ctx.quick else 74
     while len(sources) < want:
         src = gen_layout_source(rng, rng.choice([2, 3]))
         if len(src) <= 70 and src not in sources:
@@ -530,7 +613,7 @@ def run_layout(ctx: Ctx, rng: random.Random, fixed_ids: List[str], stats: Dict[s
     f = ctx.scratch / "layout_trees.json"
     f.write_text(json.dumps(trees))
     # ---- spec -> code: TLC predicts text + is_complete for every (tree, linelen, maxlines, linebreakok)
-    r = ctx.tlc("ExprLayout", layout_cfg("enum", maxll, maxml, fixed_ids), workers="auto", extra=["-continue"],
+    r = ctx.tlc("ExprLayout", layout_cfg("enum", maxll, maxml, fixed_ids, extra_ll), workers="auto", extra=["-continue"],
                 env={"LAYOUT_FILE": str(f)}, timeout=900)
     if r.errors or (r.rc != 0 and not r.violated):
         raise MachineryError(f"TLC failed on ExprLayout: {r.errors[:3]}\n" + "\n".join(r.out.splitlines()[-25:]))
@@ -556,6 +639,8 @@ def run_layout(ctx: Ctx, rng: random.Random, fixed_ids: List[str], stats: Dict[s
         full = full_cache[(ti, lbok)]
         # verdict on the REAL text: nothing lost if complete (exact: it parses back to what the unlimited text
         # parses to), ellipsis if not
+        if any(t.get("k") == "Text" and "nl" in t["op"] for t in _walk(trees[ti])) and chr(8629) in shown:
+            stats["layout_multiline_text"] += 1
         if complete:
             stats["layout_complete"] += 1
             a, b = parse_expr(shown.replace(chr(8629) + "\n", "")), parse_expr(full)
@@ -686,7 +771,7 @@ def run(ctx: Ctx) -> int:
     check_astor_table(ctx)
     stats = {k: 0 for k in ("seen", "drift", "design_bad", "violations", "incomplete", "necessity_checked",
                             "design_bad_but_real_ok", "strings", "layout", "layout_complete", "layout_wrapped",
-                            "layout_cut")}
+                            "layout_cut", "layout_multiline_text", "segments", "segments_wrapped")}
     design_violated: List[str] = []
 
     def tlc_cases(mode: str, cmp_used: List[str], env: Optional[Dict[str, str]] = None) -> List[Dict[str, Any]]:
@@ -725,6 +810,7 @@ def run(ctx: Ctx) -> int:
     run_strings(ctx, open_ids, fixed_ids, stats)
     # ---- line length / line count: wrapping, truncation, is_complete (ExprLayout.tla)
     run_layout(ctx, rng, fixed_ids, stats)
+    run_segments(ctx, fixed_ids, stats)
     ctx.extra["expr_stats"] = stats
     ctx.extra["design_level_invariants_violated"] = design_violated
     ctx.extra["known_finding_ids"] = {"open": open_ids, "fixed": fixed_ids}
@@ -760,6 +846,11 @@ def replay(ctx: Ctx, path: str) -> int:
         got = literal_value(shown)
         bad = not (complete and type(got) is type(value) and got == value)
         print(f"replay: value {w['input']} shown {shown!r} ->", "still violated" if bad else "holds now")
+    elif w.get("invariant") == "OrderKept":
+        out, cp, ln, exc = real_output(w["linelen"], w["maxlines"], w["col"], w["input"])
+        bad = exc == "none" and out.replace(chr(8629) + "\n", "") != "p" * w["col"] + w["input"]
+        print(f"replay: _output({w['input']!r}) at column {w['col']} linelen {w['linelen']} -> {out!r}:",
+              "still violated" if bad else "holds now")
     elif w.get("invariant") == "Marked":
         src, lbok = w["input"], w["linebreakok"]
         shown, complete = shown_pyval(ast.parse(src, mode="eval").body, w["linelen"], w["maxlines"], lbok)
